@@ -1,4 +1,6 @@
 pub mod cluster;
+pub mod monitor;
 pub mod net;
 pub mod node;
 pub mod record;
+pub mod scenario;
